@@ -31,6 +31,7 @@ func init() {
 	ruleText["R01.11"] = "in cfg, the condition guarding the statement that turns a define into a no-op because it redeclares the for/range loop variable mentions the source operand (src.ident / src.kind)"
 	ruleText["R01.12"] = "in every run-time closure of a generator func(n *node) that has both successors, an if whose condition is a plain boolean read (x.Bool(), a bool variable, conjunctions, negation) returns tnext when the value is true and fnext when it is false, and a SetBool(literal) directly followed by a return agrees with the successor returned"
 	ruleText["R01.13"] = "same analysis as C08/R08.1: no run-time closure writes to a variable captured from its generator (recursion and re-entrancy execute the same closure in several activations)"
+	ruleText["R01.15"] = "in the generator of calls, every vararg.Set(v) storing a whole operand (v not built by reflect.Append) into the variadic vector of the callee's frame lies under a condition on the ellipsis flag (n.action == aCallSlice)"
 	ruleText["R01.14"] = "in the assignment case of cfg, every statement n.gen = nop (the loop-variable idiom excepted) lies under a condition that is false for n.nleft > 1 / len(n.child) >= 4: the assign operation is skipped for single assignments only"
 	ruleText["R01.6"] = "in the multiple-assignment closures of the assignment generator, no loop both evaluates a source generator and writes a destination, and the temporaries receive fresh copies (reflect.New(T).Elem() + Set), never the aliasing result of a source generator"
 }
@@ -68,6 +69,7 @@ func runC01(c *Config, r *Report) {
 	c01R11(ic, r)
 	c01R12(ic, r)
 	c01R14(ic, r, "R01.14")
+	c07R14(ic, r, "R01.15")
 	// R01.13: run-time closures keep no mutable per-statement state (same analysis as
 	// C08/R08.1): a statement executed recursively or re-entered through a callback shares
 	// whatever its closure wrote into a captured generator variable.
